@@ -285,21 +285,51 @@ func decryptKeyV1(keyProtected *encryptedKeyJSONV1, auth string) (keyBytes []byt
 
 func getKDFKey(cryptoJSON cryptoJSON, auth string) ([]byte, error) {
 	authArray := []byte(auth)
-	salt, err := hex.DecodeString(cryptoJSON.KDFParams["salt"].(string))
+	saltHex, ok := cryptoJSON.KDFParams["salt"].(string)
+	if !ok {
+		return nil, fmt.Errorf("invalid KDF params: salt missing or not a string")
+	}
+	salt, err := hex.DecodeString(saltHex)
 	if err != nil {
 		return nil, err
 	}
-	dkLen := ensureInt(cryptoJSON.KDFParams["dklen"])
+	dkLen, err := kdfParamInt(cryptoJSON.KDFParams, "dklen")
+	if err != nil {
+		return nil, err
+	}
+	if dkLen < 32 {
+		// the derived key is split into an encryption key [0:16] and a MAC key [16:32]
+		return nil, fmt.Errorf("invalid KDF params: dklen %d", dkLen)
+	}
 
 	if cryptoJSON.KDF == keyHeaderKDF {
-		n := ensureInt(cryptoJSON.KDFParams["n"])
-		r := ensureInt(cryptoJSON.KDFParams["r"])
-		p := ensureInt(cryptoJSON.KDFParams["p"])
+		n, err := kdfParamInt(cryptoJSON.KDFParams, "n")
+		if err != nil {
+			return nil, err
+		}
+		r, err := kdfParamInt(cryptoJSON.KDFParams, "r")
+		if err != nil {
+			return nil, err
+		}
+		p, err := kdfParamInt(cryptoJSON.KDFParams, "p")
+		if err != nil {
+			return nil, err
+		}
+		if r < 1 || p < 1 {
+			// scrypt.Key divides by these
+			return nil, fmt.Errorf("invalid KDF params: r %d, p %d", r, p)
+		}
 		return scrypt.Key(authArray, salt, n, r, p, dkLen)
 
 	} else if cryptoJSON.KDF == "pbkdf2" {
-		c := ensureInt(cryptoJSON.KDFParams["c"])
-		prf := cryptoJSON.KDFParams["prf"].(string)
+		c, err := kdfParamInt(cryptoJSON.KDFParams, "c")
+		if err != nil {
+			return nil, err
+		}
+		if c < 1 {
+			return nil, fmt.Errorf("invalid KDF params: c %d", c)
+		}
+		prf, _ := cryptoJSON.KDFParams["prf"].(string)
 		if prf != "hmac-sha256" {
 			return nil, fmt.Errorf("Unsupported PBKDF2 PRF: %s", prf)
 		}
@@ -310,13 +340,17 @@ func getKDFKey(cryptoJSON cryptoJSON, auth string) ([]byte, error) {
 	return nil, fmt.Errorf("Unsupported KDF: %s", cryptoJSON.KDF)
 }
 
-// TODO: can we do without this when unmarshalling dynamic JSON?
-// why do integers in KDF params end up as float64 and not int after
-// unmarshal?
-func ensureInt(x interface{}) int {
-	res, ok := x.(int)
-	if !ok {
-		res = int(x.(float64))
+// kdfParamInt reads an integer KDF parameter; a missing or non-numeric value
+// (a damaged key file) is an error, not a panic.
+func kdfParamInt(params map[string]interface{}, name string) (int, error) {
+	switch v := params[name].(type) {
+	case int:
+		return v, nil
+	case float64:
+		if v != float64(int(v)) {
+			return 0, fmt.Errorf("invalid KDF params: %s is not an integer", name)
+		}
+		return int(v), nil
 	}
-	return res
+	return 0, fmt.Errorf("invalid KDF params: %s missing or not a number", name)
 }
